@@ -966,10 +966,11 @@ Section Fold.
        repair it).  The real loop renames after each output; since a value that was renamed is a graph output and
        is never chosen again, choosing first and renaming once is the same.
        chosen: (output, symbolic value) pairs; a value produced by a node of this graph that is not a graph output *)
-    Definition choose_outputs (st : state) (nodes : list node) (outs : list vname) : list (vname * vname) :=
+    Definition choose_outputs (st : state) (nodes : list node) (news : list vname) (outs : list vname) : list (vname * vname) :=
       fold_left (fun chosen o =>
                    match sym_val st o with
-                   | Some s => if mem s (flat_map n_outs nodes) && negb (mem s (c_graph_outputs cfg)) && negb (mem s (map snd chosen))
+                   | Some s => if mem s (flat_map n_outs nodes) && negb (mem s news)   (* a folded value has no producer any more *)
+                                  && negb (mem s (c_graph_outputs cfg)) && negb (mem s (map snd chosen))
                                then (chosen ++ [(o, s)])%list else chosen
                    | None => chosen
                    end) outs [].
@@ -986,9 +987,9 @@ Section Fold.
                             | SVal t => mem (fst kv) scope || negb (mem t (os ++ ss)%list)
                             | _ => true
                             end) (s_sym st).
-    Definition replace_outputs (bound gi : list vname) (st : state) (nodes : list node) (outs : list vname) (scope : list vname)
+    Definition replace_outputs (bound gi : list vname) (st : state) (nodes : list node) (news : list vname) (outs : list vname) (scope : list vname)
       : result (state * list node * list tr_entry) :=
-      let chosen := choose_outputs st nodes outs in
+      let chosen := choose_outputs st nodes news outs in
       if strict && negb (replace_ok bound gi st nodes outs scope chosen) then Stuck "output replacement: names are not fresh"
       else
         let r := output_renaming chosen in
@@ -1007,7 +1008,7 @@ Section Fold.
              if strict && negb (disjointb gi (fnames st) && disjointb gi bound) then Stuck "subgraph input names are not fresh" else
              match visit_nodes (visit_subs_d d fuel) fuel false (gi ++ bound)%list st ginits gnodes with
              | OK (sta, ns, ginits', news_a, defd_a, tra) =>
-               match replace_outputs (gi ++ bound)%list gi sta ns gouts (gi ++ defd_a ++ map dup_name gouts)%list with
+               match replace_outputs (gi ++ bound)%list gi sta ns news_a gouts (gi ++ defd_a ++ map dup_name gouts)%list with
                | OK (stb, ns', tro) =>
                  match go stb t with
                  | OK (stc, l', news_c, defd_c, trc) =>
@@ -1035,7 +1036,7 @@ Section Fold.
       let 'Graph gi inits nodes outs := g in
       match visit_nodes (visit_subs_d depth fuel) fuel false (gi ++ bound)%list st inits nodes with
       | OK (st1, ns, inits', news, defd, tr) =>
-        match replace_outputs (gi ++ bound)%list gi st1 ns outs (gi ++ defd ++ map dup_name outs)%list with
+        match replace_outputs (gi ++ bound)%list gi st1 ns news outs (gi ++ defd ++ map dup_name outs)%list with
         | OK (st2, ns', tro) => OK (st2, Graph gi inits' ns' outs, news, (tr ++ tro)%list)
         | Raised => Raised
         | OutOfFuel => OutOfFuel
